@@ -734,6 +734,58 @@ pub enum ReadError {
     PrematureEnd { backtrace: Backtrace },
 }
 
+/// A writer wrapper which remembers the first I/O failure of the inner writer.
+///
+/// Data set adapters (such as the deflate encoder)
+/// may only emit the end of their output when they are dropped,
+/// at which point an error can no longer be returned.
+/// Writing through this wrapper lets the caller find out afterwards
+/// whether the destination has failed.
+pub(crate) struct ErrorLatch<W> {
+    inner: W,
+    error: Option<std::io::Error>,
+}
+
+impl<W: Write> ErrorLatch<W> {
+    pub(crate) fn new(inner: W) -> Self {
+        ErrorLatch { inner, error: None }
+    }
+
+    /// Report a failure recorded so far, otherwise flush the inner writer.
+    pub(crate) fn finish(&mut self) -> std::io::Result<()> {
+        match self.error.take() {
+            Some(e) => Err(e),
+            None => self.inner.flush(),
+        }
+    }
+
+    fn record(&mut self, e: &std::io::Error) {
+        if self.error.is_none() && e.kind() != std::io::ErrorKind::Interrupted {
+            self.error = Some(std::io::Error::new(e.kind(), e.to_string()));
+        }
+    }
+}
+
+impl<W: Write> Write for ErrorLatch<W> {
+    fn write(&mut self, buf: &[u8]) -> std::io::Result<usize> {
+        match self.inner.write(buf) {
+            Ok(0) if !buf.is_empty() => {
+                self.record(&std::io::ErrorKind::WriteZero.into());
+                Ok(0)
+            }
+            Ok(n) => Ok(n),
+            Err(e) => {
+                self.record(&e);
+                Err(e)
+            }
+        }
+    }
+
+    fn flush(&mut self) -> std::io::Result<()> {
+        self.inner.flush().inspect_err(|e| self.record(e))
+    }
+}
+
 /// An error which may occur when writing a DICOM object
 #[derive(Debug, Snafu)]
 #[non_exhaustive]
@@ -768,6 +820,11 @@ pub enum WriteError {
     PrintDataSet {
         #[snafu(backtrace)]
         source: dicom_parser::dataset::write::Error,
+    },
+    #[snafu(display("Could not finish writing the data set"))]
+    FinishDataSet {
+        backtrace: Backtrace,
+        source: std::io::Error,
     },
     #[snafu(display("Unrecognized transfer syntax `{uid}`"))]
     WriteUnrecognizedTransferSyntax { uid: String, backtrace: Backtrace },
@@ -1028,16 +1085,21 @@ where
         };
         match ts.codec() {
             Codec::Dataset(Some(adapter)) => {
-                let adapter = adapter.adapt_writer(Box::new(to));
-                let mut dset_writer =
-                    DataSetWriter::with_ts(adapter, ts).context(CreatePrinterSnafu)?;
+                let mut to = ErrorLatch::new(to);
+                {
+                    let adapter = adapter.adapt_writer(Box::new(&mut to));
+                    let mut dset_writer =
+                        DataSetWriter::with_ts(adapter, ts).context(CreatePrinterSnafu)?;
 
-                // write object
-                dset_writer
-                    .write_sequence((&self.obj).into_tokens())
-                    .context(PrintDataSetSnafu)?;
+                    // write object
+                    dset_writer
+                        .write_sequence((&self.obj).into_tokens())
+                        .context(PrintDataSetSnafu)?;
 
-                dset_writer.flush().context(PrintDataSetSnafu)?;
+                    dset_writer.flush().context(PrintDataSetSnafu)?;
+                }
+                // the adapter may only have finished its output when dropped
+                to.finish().context(FinishDataSetSnafu)?;
 
                 Ok(())
             }
